@@ -26,6 +26,7 @@ EXPLANATION = (
     ' The ban list may be computed from literals at import time: it is constant-folded (comprehensions, itertools.combinations*, str.format) before D3 is decided.'
     ' (D7) the both-side relabelling returns the given vector or its complete negation.'
     ' (D8) the completion used by single_impute comes from SyntheticRuleMatcher.match() only; (D9) the ban list is canonicalised outside any handler that swallows the failure.'
+    ' (D10) every placeholder exchange of reduction_oxidation_rules_modify conserves each element and the charge as polynomials in the number of removed components (multiplicities read off the code, floor division only under a divisibility guard, literal compositions folded). (D11) the id the rule-based stage indexes the batch with is the row position (shared with C06-B2).'
 )
 ASSUMPTIONS = [
     "RDKit parses the table literals as the pipeline's own RDKit does (same interpreter)",
